@@ -107,6 +107,31 @@ def run(tier):
     if len(cover) < 100:
         o.problem("transition cover generation produced only %d paths" % len(cover))
 
+    # re-put chains with the SAME value bytes (the generated programs above write unique values): put k v / delete k / put k v again, with every
+    # placement of {nothing, rotation, rotation + flush, rotation + flush + compaction} after each of the three mutations, then a restart
+    import itertools
+    fill = [[], [{"op": "rotate"}], [{"op": "rotate"}, {"op": "barrier"}], [{"op": "rotate"}, {"op": "barrier"}, {"op": "compact"}]]
+    reput = []
+    for x1, x2, x3 in itertools.product(range(4), repeat=3):
+        obs = {"op": "getall", "k": 3}
+        st = [dbgen.open_step(1, 1 << 30, 1000, mem=1 << 30), {"op": "put", "k": 0, "v": "same", "pad": 7}, {"op": "put", "k": 1, "v": "other", "pad": 7}] + fill[x1] + [obs,
+              {"op": "del", "k": 0}] + fill[x2] + [obs, {"op": "put", "k": 0, "v": "same", "pad": 7}, {"op": "put", "k": 2, "v": "same", "pad": 7}] + fill[x3] + [obs,
+              {"op": "barrier"}, {"op": "close"}, dbgen.open_step(1, 1 << 30, 1000), obs, {"op": "close"}]
+        reput.append(st)
+    batches += [("reput-%d" % i, reput[i::4], False) for i in range(4)]
+
+    # in the middle of a session a copy of the directory with a torn log tail and an EMPTY compaction marker is opened, read and closed by the same
+    # process (what recovery does with such debris - failed opens, closes - must not come back to haunt the tables the session compacts afterwards)
+    ua = dbgen.Uniq("r")
+    for bi in range(2):
+        st = [dbgen.open_step(1, 1 << 30, 1000, mem=1 << 30)]
+        for t in range(4):
+            st += [{"op": "put", "k": k, "v": ua.next(), "pad": 40} for k in range(8) if (k + t) % 3 != 2] + [{"op": "rotate"}, {"op": "barrier"}]
+            if t == 1:
+                st += [{"op": "put", "k": 0, "v": ua.next(), "pad": 0}, {"op": "tornreopen"}] * (1 + bi)
+        st += [{"op": "getall", "k": 8}, {"op": "compact"}, {"op": "getall", "k": 8}, {"op": "close"}, dbgen.open_step(1, 1 << 30, 1000), {"op": "getall", "k": 8}, {"op": "close"}]
+        batches.append(("afterreopen-%d" % bi, [st], False))
+
     # impl -> spec: long programs
     nlong = 24 if thorough else 6
     for i in range(nlong):
